@@ -36,8 +36,6 @@ __CPROVER_ensures(cst[m_j] != BASIC)
 __CPROVER_ensures(__CPROVER_old(rst[m_i]) != BASIC ==> (cst[m_j] == ZERO && rst[m_i] == FLIP(__CPROVER_old(cst[m_j]))))
 __CPROVER_ensures(__CPROVER_old(rst[m_i]) == BASIC ==> (cst[m_j] == __CPROVER_old(cst[m_j]) && rst[m_i] == BASIC))
 __CPROVER_ensures(DEFINED(rst[m_i]) && DEFINED(cst[m_j]))
-/* primal: the slack absorbs the extra column (one exact IEEE subtraction) */
-__CPROVER_ensures(SAME(s[m_i], __CPROVER_old(s[m_i]) - __CPROVER_old(x[m_j])))
 /* (c) frame */
 __CPROVER_ensures(g_kr != m_i ==> ROW_UNCHANGED)
 __CPROVER_ensures(g_kr == m_i ==> SAME(y[g_kr], v_y))
@@ -152,6 +150,67 @@ void h_TightenBounds(void)
    PS_LOCALS; int m_j; double m_origupper, m_origlower;
    havoc_ghosts();
    w_TightenBounds(PS_ARGS, m_j, m_origupper, m_origlower);
+   CANARY();
+}
+#endif
+
+/* ------------------------------------------------------------------------------------------- */
+#ifdef INST_RowSingleton
+/* re-inserts singleton row m_i (only column m_j).  Either the row becomes BASIC (dual = row objective) or it
+ * takes over a bound of x_j and x_j becomes BASIC (reduced cost 0): exactly one more BASIC entry. */
+void w_RowSingleton(PS_PARAMS, int m_i, int m_old_i, int m_j, double m_lhs, double m_rhs, int m_strictLo, int m_strictUp,
+                    int m_maxSense, double m_obj, int* col_idx, double* col_val, int col_n, double m_newLo, double m_newUp,
+                    double m_oldLo, double m_oldUp, double m_row_obj)
+__CPROVER_requires(PS_WF && ROW_SHIFT_REQ && 0 <= m_j && m_j < nC && SV_WF(col_idx, col_val, col_n) && g_n == col_n)
+__CPROVER_requires(DEFINED(cst[m_j]))          /* UNDEFINED would fall through `default: break;` and leave the new row's status stale */
+__CPROVER_requires(GHOST_COL && GHOST_ROW)
+__CPROVER_assigns(GP_ALL, W(y), W(s), W(r), W(cst), W(rst))
+__CPROVER_ensures(ROW_DELTA + B(cst[m_j]) - B(__CPROVER_old(cst[m_j])) == 1)                 /* (a) */
+__CPROVER_ensures(ROW_SHIFT_UNDO)                                                            /* (b) */
+__CPROVER_ensures(rst[m_i] == BASIC ==> SAME(y[m_i], m_row_obj))                             /* (d) */
+__CPROVER_ensures(cst[m_j] == BASIC ==> r[m_j] == 0.0)
+__CPROVER_ensures(DEFINED(rst[m_i]) && DEFINED(cst[m_j]))
+__CPROVER_ensures(rst[m_i] != BASIC ==> ((rst[m_i] == ON_LOWER || rst[m_i] == ON_UPPER) && cst[m_j] == BASIC && __CPROVER_old(cst[m_j]) != BASIC))
+__CPROVER_ensures((__CPROVER_old(cst[m_j]) == ZERO || __CPROVER_old(cst[m_j]) == BASIC) ==> (cst[m_j] == __CPROVER_old(cst[m_j]) && rst[m_i] == BASIC))
+__CPROVER_ensures((g_kr != m_i && g_kr != m_old_i) ==> ROW_UNCHANGED)                        /* (c) */
+__CPROVER_ensures(g_kc != m_j ==> COL_UNCHANGED)
+__CPROVER_ensures(SAME(x[g_kc], v_x))
+;
+void h_RowSingleton(void)
+{
+   PS_LOCALS; int m_i, m_old_i, m_j, m_strictLo, m_strictUp, m_maxSense, col_n; double m_lhs, m_rhs, m_obj, m_newLo, m_newUp, m_oldLo, m_oldUp, m_row_obj;
+   int* col_idx; double* col_val;
+   havoc_ghosts();
+   w_RowSingleton(PS_ARGS, m_i, m_old_i, m_j, m_lhs, m_rhs, m_strictLo, m_strictUp, m_maxSense, m_obj, col_idx, col_val, col_n, m_newLo, m_newUp,
+                  m_oldLo, m_oldUp, m_row_obj);
+   CANARY();
+}
+#endif
+
+/* ------------------------------------------------------------------------------------------- */
+#ifdef INST_FixVariable
+/* re-inserts the fixed column m_j as a NON-BASIC column (FIXED / ON_LOWER / ON_UPPER / ZERO): delta 0.
+ * m_correctIdx == false: the index shift was already undone by another step (e.g. the FixVariablePS of a
+ * duplicate column), only the entry m_j is rewritten. */
+void w_FixVariable(PS_PARAMS, int m_j, int m_old_j, double m_val, double m_obj, double m_lower, double m_upper, int m_correctIdx,
+                   int* col_idx, double* col_val, int col_n)
+__CPROVER_requires(PS_WF && COL_SHIFT_REQ && SV_WF(col_idx, col_val, col_n) && g_n == col_n)
+__CPROVER_requires(GHOST_COL && GHOST_ROW && g_out == (SV_HAS(col_idx, col_n, g_kr) ? 1 : 0))
+__CPROVER_assigns(GP_ALL, gp_i1, W(x), W(s), W(r), W(cst))
+__CPROVER_ensures(NONBASIC(cst[m_j]))                                                        /* (a),(d) */
+__CPROVER_ensures(m_correctIdx ==> COL_DELTA == 0)
+__CPROVER_ensures(m_correctIdx ==> COL_SHIFT_UNDO)                                           /* (b) */
+__CPROVER_ensures((m_lower == m_upper) == (cst[m_j] == FIXED))
+__CPROVER_ensures(SAME(x[m_j], m_val))
+__CPROVER_ensures((g_kc != m_j && (g_kc != m_old_j || !m_correctIdx)) ==> COL_UNCHANGED)    /* (c) */
+__CPROVER_ensures(SAME(y[g_kr], v_y) && rst[g_kr] == v_rs)
+__CPROVER_ensures(!SV_HAS(col_idx, col_n, g_kr) ==> SAME(s[g_kr], v_s))
+;
+void h_FixVariable(void)
+{
+   PS_LOCALS; int m_j, m_old_j, m_correctIdx, col_n; double m_val, m_obj, m_lower, m_upper; int* col_idx; double* col_val;
+   havoc_ghosts();
+   w_FixVariable(PS_ARGS, m_j, m_old_j, m_val, m_obj, m_lower, m_upper, m_correctIdx, col_idx, col_val, col_n);
    CANARY();
 }
 #endif
